@@ -12,6 +12,7 @@
   left alone by the lf run and rewritten by the crlf run): it decides which lines are wrapped a second time.
 -/
 import PasfmtModel.Proofs.LayoutStage
+import PasfmtModel.Model.CrlfCheck
 import PasfmtModel.Proofs.ReconProps
 import PasfmtModel.Proofs.MlsBreaks
 
@@ -660,14 +661,6 @@ theorem lfCrlf_settings (cfg : Config) : LfCrlf ({ cfg with crlf := false }).set
 
 /-! ### token states of the two runs -/
 
-/-- a non-ignored multi-line literal: what the string passes look at -/
-def mlsLive (t : FTok) : Bool := !t.fmt.ignored && isMlsKind t.tok.kind
-
-/-- the two runs agree on whether the re-indenter changes this token -/
-def agreeTok (SL SC : Settings) (t : FTok) : Bool :=
-  !mlsLive t ||
-    (mlsRewrite SL t.tok.content t.fmt.ind t.fmt.cont).isSome == (mlsRewrite SC t.tok.content t.fmt.ind t.fmt.cont).isSome
-
 /-- one token in the lf run (`t`) and in the crlf run (`t'`); `oc` = its text when the stage started.  Same type, same
     counters, ignored tokens identical; the texts are both still the original one (and then `A` holds of the token:
     a side condition that the first string pass needs), or the two renderings of the same lines; the text of a
@@ -1131,9 +1124,6 @@ theorem applyLinesS_frame (phase : Nat) (lines : List Line) (is : List Nat) (st 
 
 /-! ### the whole stage -/
 
-/-- the text of token `j` when the stage starts -/
-def origContent (ft0 : FT) (j : Nat) : Bytes := (ft0[j]?.map (·.tok.content)).getD []
-
 /-- a state with the texts and ignored flags of the stage's input is related to itself -/
 theorem relC_refl (A : FTok → Prop) (ft0 ft : FT) (hframe : ft.map frameKey = ft0.map frameKey)
     (hq : ∀ t ∈ ft0, mlsLive t = true → EndsQ t.tok.content) (hA : ∀ t ∈ ft, A t) :
@@ -1158,10 +1148,6 @@ theorem relC_refl (A : FTok → Prop) (ft0 ft : FT) (hframe : ft.map frameKey = 
         rw [k1, k2]; exact hm
       rw [k1] at this
       exact ⟨this, this⟩
-
-/-- the lf run's state when the first string pass starts -/
-def phase0 (cfg : Config) (lines : List Line) (ft : FT) : Option FT :=
-  (applyLinesS 0 lines (firstPassLines lines) (searchInit cfg lines ft) ft []).map (·.1)
 
 theorem searchCfg_crlf (cfg : Config) : ({ cfg with crlf := true }).searchCfg = ({ cfg with crlf := false }).searchCfg := by
   unfold Config.searchCfg Config.settings
@@ -1229,14 +1215,6 @@ theorem wrapStageFull_crlf (cfg : Config) (lines : List Line) (ft0 ftz : FT) (so
 
 /-! ### the reconstructor -/
 
-/-- a token of the lf run's final state that is safe to emit under the substitution; `oc` = its text when the stage
-    started.  An ignored token (emitted with its whitespace, verbatim): no `\n` in whitespace or text.  Any other
-    token: no `\n` in its text, or the stage changed the text (then it is a re-indented literal, whose line breaks
-    are the configured ones). -/
-def safeTok (oc : Bytes) (t : FTok) : Bool :=
-  if t.fmt.ignored then !containsByte 0x0A t.tok.ws && !containsByte 0x0A t.tok.content
-  else !containsByte 0x0A t.tok.content || t.tok.content != oc
-
 theorem crlfOf_lf : crlfOf [0x0A] = [0x0D, 0x0A] := by decide
 
 theorem gapOf_relC {SL SC : Settings} (hS : LfCrlf SL SC) {A : FTok → Prop} {oc : Bytes} {t t' : FTok}
@@ -1299,19 +1277,6 @@ theorem reconGo_relC {SL SC : Settings} (hS : LfCrlf SL SC) (A : FTok → Prop) 
 
 /-! ### the side conditions as one decidable check on the lf run, and the whole formatter -/
 
-/-- the side conditions of the stage theorem, computed from the lf run: (1) every non-ignored multi-line literal of
-    the stage's input ends in a quote; (2) if strings are re-indented, the two runs agree on which literals the first
-    string pass changes; (3) every token of the lf run's final state is safe to emit under the substitution. -/
-def crlfStageOk (cfg : Config) (lines : List Line) (ft0 : FT) : Bool :=
-  ft0.all (fun t => !mlsLive t || t.tok.content.getLast? == some 0x27) &&
-  (!cfg.fmtMls ||
-    match phase0 { cfg with crlf := false } lines ft0 with
-    | some ft1 => ft1.all (agreeTok ({ cfg with crlf := false }).settings ({ cfg with crlf := true }).settings)
-    | none => true) &&
-  (match wrapStageFull { cfg with crlf := false } lines ft0 with
-    | some (ftz, _) => ftz.zipIdx.all (fun x => safeTok (origContent ft0 x.2) x.1)
-    | none => true)
-
 /-- the stage and the reconstructor in the two runs -/
 theorem wrapStageFull_crlf_output (cfg : Config) (lines : List Line) (ft0 ftz : FT) (sols : List (Nat × Nat × Sol))
     (h1 : wrapStageFull { cfg with crlf := false } lines ft0 = some (ftz, sols))
@@ -1341,18 +1306,6 @@ theorem wrapStageFull_crlf_output (cfg : Config) (lines : List Line) (ft0 ftz : 
   apply reconGo_relC (lfCrlf_settings cfg) T0 _ ftz ftz' rel
   intro j t ht
   exact hsafe (t, j) (List.mem_zipIdx_iff_getElem?.2 ht)
-
-/-- the side conditions for a whole input: `crlfStageOk` at the state the wrapper stage starts from (which does not
-    depend on the configuration) -/
-def crlfOk (cfg : Config) (alnum : Bytes → Bool) (s : Bytes) : Bool :=
-  match lex s with
-  | none => true
-  | some raw =>
-    match parseAndConsolidate raw with
-    | none => true
-    | some po =>
-      let O : Oracles := { parser := fun _ => po, wrap := fun _ _ ft => ft, alnum := alnum }
-      crlfStageOk cfg (preWrap O raw).2.1 (preWrap O raw).2.2
 
 theorem formatFull_crlf_config (cfg : Config) (alnum : Bytes → Bool) (s outL : Bytes)
     (hok : crlfOk cfg alnum s = true) (h : formatFull { cfg with crlf := false } alnum s = some outL) :
